@@ -24,6 +24,46 @@ use divan::{
 };
 use serde_json::Value;
 
+/// Like a user's benchmark binary, the process allocator is `AllocProfiler`; what the scheduler,
+/// the hooks and this harness allocate for their own bookkeeping goes straight to `System`.
+struct Gate;
+
+static PROFILED: divan::AllocProfiler = divan::AllocProfiler::system();
+
+unsafe impl std::alloc::GlobalAlloc for Gate {
+    unsafe fn alloc(&self, layout: std::alloc::Layout) -> *mut u8 {
+        if divan::verif::in_harness() {
+            std::alloc::System.alloc(layout)
+        } else {
+            PROFILED.alloc(layout)
+        }
+    }
+    unsafe fn alloc_zeroed(&self, layout: std::alloc::Layout) -> *mut u8 {
+        if divan::verif::in_harness() {
+            std::alloc::System.alloc_zeroed(layout)
+        } else {
+            PROFILED.alloc_zeroed(layout)
+        }
+    }
+    unsafe fn realloc(&self, ptr: *mut u8, layout: std::alloc::Layout, new_size: usize) -> *mut u8 {
+        if divan::verif::in_harness() {
+            std::alloc::System.realloc(ptr, layout, new_size)
+        } else {
+            PROFILED.realloc(ptr, layout, new_size)
+        }
+    }
+    unsafe fn dealloc(&self, ptr: *mut u8, layout: std::alloc::Layout) {
+        if divan::verif::in_harness() {
+            std::alloc::System.dealloc(ptr, layout)
+        } else {
+            PROFILED.dealloc(ptr, layout)
+        }
+    }
+}
+
+#[global_allocator]
+static GLOBAL: Gate = Gate;
+
 static PROGRAM: OnceLock<Value> = OnceLock::new();
 
 fn program() -> &'static Value {
@@ -78,11 +118,39 @@ fn run_case(bencher: Bencher, what: &'static str, id: usize, arg: Option<String>
         drop(bencher);
         return;
     }
-    bencher.bench(|| {
-        event(Ev::new("call").s("what", what).u("id", id as u128).s("arg", &arg_s));
+    // scripted allocator activity of each call: allocate these block sizes, then free them all;
+    // optionally the call first frees an input buffer that was allocated outside the timed section
+    let mut blocks = [0usize; 6];
+    let mut nblocks = 0;
+    for b in spec["alloc_blocks"].as_array().map(|a| a.as_slice()).unwrap_or(&[]).iter().take(6) {
+        blocks[nblocks] = b.as_u64().unwrap_or(1).max(1) as usize;
+        nblocks += 1;
+    }
+    let body = |nth: &std::sync::atomic::AtomicU64| {
         let k = nth.fetch_add(1, std::sync::atomic::Ordering::Relaxed);
+        divan::verif::untracked(|| {
+            event(Ev::new("call").s("what", what).u("id", id as u128).s("arg", &arg_s))
+        });
+        let mut held = [(std::ptr::null_mut::<u8>(), 0usize); 6];
+        for i in 0..nblocks {
+            let layout = std::alloc::Layout::from_size_align(blocks[i], 1).unwrap();
+            held[i] = (unsafe { std::alloc::alloc(layout) }, blocks[i]);
+        }
+        for i in 0..nblocks {
+            let layout = std::alloc::Layout::from_size_align(held[i].1, 1).unwrap();
+            unsafe { std::alloc::dealloc(held[i].0, layout) };
+        }
         clock::advance(cost + ((k * k + k / 3) % 7) * cost_var);
-    });
+    };
+    match spec["free_input"].as_u64() {
+        Some(n) if n > 0 => bencher
+            .with_inputs(move || Vec::<u8>::with_capacity(n as usize))
+            .bench_values(|v| {
+                drop(v);
+                body(&nth)
+            }),
+        _ => bencher.bench(|| body(&nth)),
+    }
 }
 
 fn plain_body<const ID: usize>(bencher: Bencher) {
